@@ -183,6 +183,7 @@ def generate(extra_sections=()):
     L = []
     A = L.append
     A("import PygVerif.Model.Str")
+    A("import PygVerif.Model.Init")
     A("/-! GENERATED by harness/extract.py from /repo on every run — do not edit. -/")
     A("namespace Pyg.Generated")
     A("")
